@@ -156,7 +156,10 @@ def tasks(tier, prop='C12'):
     b = bounds(tier, prop)
     n = len(skeleton_family(b['nodes'], prop == 'C13'))
     chunk = max(1, (n + 63) // 64)
-    return [{'lo': i, 'hi': min(n, i + chunk), 'prop': prop} for i in range(0, n, chunk)]
+    ts = [{'lo': i, 'hi': min(n, i + chunk), 'prop': prop} for i in range(0, n, chunk)]
+    if prop == 'C13':
+        ts += [{'part': 'shortcut', 'which': w, 'indexed': ix, 'prop': prop} for w in ('opassign', 'plusplus', 'subsub') for ix in (False, True)] + [{'part': 'shortcut', 'which': 'for', 'prop': prop}]
+    return ts
 
 
 def ast_of(ir, sk):
@@ -297,7 +300,67 @@ def walk_cfg(g, dec, limit):
         cur = nxt
 
 
+def run_shortcut(task):
+    """ast_shortcuts (the parser's expansions) from MIR: compound assignment `v op= e`, `v++`, `v--` and `for`"""
+    pr = prog(); ir = IR(pr); h = Harness(pr, 'structure'); stats = Stats()
+    X = 'ast::Expression'; S = 'ast::Statement'
+    meta = lambda i: Struct('ast::Meta', [i, i, i, ir.range_(i, i), some(0), Opaque('ci'), Opaque('tk'), Opaque('mk')])
+    ops = pr.defs.enum_variants('ast::ExpressionInfixOpcode')
+    opv = z3.Int('op'); h.inputs['op'] = opv
+    base = [opv >= min(d for _, d, _ in ops), opv <= max(d for _, d, _ in ops)]
+    which = task['which']
+    access = VecV([Enum('ast::Access', 'ArrayAccess', [Enum(X, 'Number', [meta(7), BigV(0)])])]) if task.get('indexed') else VecV([])
+    is_var = lambda e, name: deref(e).var == 'Variable' and ir.get(e, 'name').concrete() == name and len(ir.get(e, 'access').items) == len(access.items)
+
+    def entry(ex):
+        var = Struct('()', [StrV.of('v'), clone_val(access)])
+        if which == 'opassign':
+            fn = pr.find('assign_with_op_shortcut', crate='structure')
+            return ex.call_mir(fn, [Enum('ast::ExpressionInfixOpcode', opv), meta(1), var, Enum(X, 'Variable', [meta(2), StrV.of('e'), VecV([])])])
+        if which in ('plusplus', 'subsub'):
+            return ex.call_mir(pr.find(which, crate='structure'), [meta(1), var])
+        fn = pr.find('for_into_while', crate='structure')
+        tok = lambda t, i: ir.E(S, 'Assert', meta=meta(i), arg=Opaque('expr', t))
+        return ex.call_mir(fn, [meta(1), tok('init', 2), Opaque('cond'), tok('step', 3), tok('body', 4)])
+
+    def post(ex, st):
+        st = deref(st); O = ex.oblige
+        if which == 'for':
+            O(st.var == 'Block' and len(ir.get(st, 'stmts').items) == 2, 'expansion', 'for (init; c; step) body expands to a block of two statements')
+            if st.var != 'Block' or len(ir.get(st, 'stmts').items) != 2: return
+            a, w = [deref(x) for x in ir.get(st, 'stmts').items]
+            tokof = lambda x: deref(ir.get(x, 'arg')).data if deref(x).var == 'Assert' else None
+            O(tokof(a) == 'init', 'expansion', 'the first statement is the initialisation')
+            O(w.var == 'While' and isinstance(deref(ir.get(w, 'cond')), Opaque) and deref(ir.get(w, 'cond')).tag == 'cond', 'expansion', 'the second statement is a while loop on the condition')
+            if w.var != 'While': return
+            bd = deref(ir.get(w, 'stmt')); bd = deref(bd.f[0]) if isinstance(bd, BoxV) else bd
+            items = [deref(x) for x in ir.get(bd, 'stmts').items] if bd.var == 'Block' else []
+            O([tokof(x) for x in items] == ['body', 'step'], 'expansion', 'the loop body is { body; step } in this order (got %s)' % [tokof(x) for x in items])
+            return
+        O(st.var == 'Substitution', 'expansion', 'a compound assignment expands to a substitution')
+        if st.var != 'Substitution': return
+        O(ir.get(st, 'var').concrete() == 'v' and len(ir.get(st, 'access').items) == len(access.items) and ir.get(st, 'op').var == 'AssignVar', 'expansion', 'it assigns the same variable (with the same access) with `=`')
+        rhe = deref(ir.get(st, 'rhe'))
+        O(rhe.var == 'InfixOp', 'expansion', 'the right-hand side is an infix operation')
+        if rhe.var != 'InfixOp': return
+        unbox = lambda b_: deref(deref(b_).f[0]) if isinstance(deref(b_), BoxV) else deref(b_)
+        l = unbox(ir.get(rhe, 'lhe')); r = unbox(ir.get(rhe, 'rhe')); op = ir.get(rhe, 'infix_op')
+        O(is_var(l, 'v'), 'expansion', 'the left operand is the assigned variable (with the same access)')
+        if which == 'opassign':
+            d = op.var if not isinstance(op.var, str) else [dd for n_, dd, _ in ops if n_ == op.var][0]
+            O(simp(eq(d, opv)), 'expansion', '`v op= e` uses the operator that was written')
+            O(r.var == 'Variable' and ir.get(r, 'name').concrete() == 'e', 'expansion', 'the right operand is the expression that was written')
+        else:
+            want = 'Add' if which == 'plusplus' else 'Sub'
+            O(op.var == want or (not isinstance(op.var, str) and op.var == [dd for n_, dd, _ in ops if n_ == want][0]), 'expansion', '`v%s` uses %s' % ('++' if which == 'plusplus' else '--', want))
+            O(r.var == 'Number' and r.f[1].t == 1, 'expansion', 'the right operand is the number 1')
+    st_, vs, inc = explore(h, entry, None, post=post, base=base, stats=stats, seed=common.seed())
+    for v in vs: v.extra['shortcut'] = which
+    return {'stats': common.pack_stats(stats), 'violations': [common.pack_violation(v) for v in vs]}
+
+
 def run_task(task):
+    if task.get('part') == 'shortcut': return run_shortcut(task)
     pr = prog(); ir = IR(pr); prop = task['prop']
     tier = task.get('tier', 'quick'); b = bounds(tier, prop)
     h = Harness(pr, 'structure')
@@ -429,8 +492,29 @@ def confirm(sk, prop, decisions):
     return t1 != t2[:len(t1)], {'graph walk': t2}, {'source execution': t1}
 
 
+def confirm_shortcut(which):
+    """native observation for the `for` expansion: in the graph of the real parser + lifter the body statement precedes the step"""
+    global NAT
+    if which != 'for': return None, 'engine-level only (the expansion is an AST value)', None
+    if NAT is None: NAT = common.Native(common.build_replay('vr_analysis'))
+    src = 'function f(x) {\n    for (x = 1; x < 2; x = x + 3) {\n        x = x + 4;\n    }\n    return x;\n}\n'
+    out = NAT.ask('cfgdump ' + src.encode().hex(), timeout=30)
+    if not out.startswith('['): return True, out, 'a control-flow graph'
+    step = src.index('x = x + 3'); body = src.index('x = x + 4')
+    for b in json.loads(out):
+        offs = [st[1] for st in b['stmts']]
+        if step in offs and body in offs:
+            return offs.index(body) > offs.index(step), {'order in the loop body block': ['body' if o == body else 'step' for o in offs if o in (step, body)]}, {'order': ['body', 'step']}
+    return True, 'body and step are not in one block: ' + out[:200], {'order': ['body', 'step']}
+
+
 def main(tier, replay=None, prop='C12'):
     rep = common.Report(prop, tier)
+    if replay and json.load(open(replay)).get('shortcut'):
+        d = json.load(open(replay)); bad, got, exp = confirm_shortcut(d['shortcut'])
+        if bad is None:
+            r = run_shortcut({'part': 'shortcut', 'which': d['shortcut'], 'indexed': False, 'prop': prop}); bad = bool(r['violations']); got = [v['msg'] for v in r['violations']][:2]
+        print('replay: observed=%s expected=%s -> %s' % (got, exp, 'VIOLATION' if bad else 'holds')); return 1 if bad else 0
     if replay:
         d = json.load(open(replay)); import ast as _ast
         bad, got, exp = confirm(_ast.literal_eval(d['skeleton']), prop, d.get('decisions', []))
@@ -449,6 +533,21 @@ def main(tier, replay=None, prop='C12'):
             rep.inconclusive.append('task %s: %s' % (r['task'], r['error'][:500])); continue
         rep.add_stats(r['stats'])
         for v in r['violations']:
+            if r['task'].get('part') == 'shortcut':
+                which = r['task']['which']
+                role = {'function': 'ast_shortcuts::' + which, 'kind': v['kind'], 'class': 'any'}
+                key = json.dumps(role, sort_keys=True)
+                if key in seen: continue
+                bad, got, exp = confirm_shortcut(which); rep.validated += 1
+                if bad is False:
+                    rep.nonrepro.append({'violation': v, 'observed': str(got)}); continue
+                seen[key] = 1
+                k = common.match_known(known, role)
+                if k: rep.known_hits.append('%s (%s)' % (k['id'], v['msg'][:300]))
+                else:
+                    rep.violations.append(rep.save_replay(role, {'property': prop, 'violation': v, 'shortcut': which, 'observed': str(got), 'expected': str(exp), 'native_replay': bad is True}))
+                    common.log('VIOLATION detail:', '%s (expansion %s) native: %s' % (v['msg'], which, got))
+                continue
             role = {'function': 'control_flow_graph::lifting', 'kind': v['kind'], 'class': 'any'}
             key = json.dumps(role, sort_keys=True)
             if key in seen: continue
@@ -475,6 +574,7 @@ def main(tier, replay=None, prop='C12'):
                   'decisions (C13)': '<= %d branch/loop decisions per run' % (6 if tier == 'quick' else 8)}
     rep.stubs = ['TryLift of ast::Meta / ast::Expression / leaf ast::Statement (tokens that remember the AST node)', 'LiftingEnvironment (unused: no declarations in the skeleton)', 'log macros disabled']
     rep.assumptions = ['HashSet<usize> modelled as an insertion-ordered set', 'source hash ' + pr.hashes['structure']]
-    rep.outside = ['for-loop and compound-assignment expansion in the parser (ast_shortcuts)', 'real leaf lifting', 'SSA', 'deeper or wider programs']
+    if prop == 'C13': rep.bounds['expansions'] = 'ast_shortcuts::{assign_with_op_shortcut (symbolic operator), plusplus, subsub} on plain and indexed variables, for_into_while'
+    rep.outside = ['the grammar actions that call ast_shortcuts', 'real leaf lifting', 'SSA', 'deeper or wider programs']
     rep.extra['exhaustive'] = True
     return rep.finish()
